@@ -34,3 +34,9 @@ CLAIMS["C09"] = dict(
     text="Each base tree (one per dependency-edge kind and all 2-hop chains) and every tree obtained from it by adding ONE reference 'X mentions Y' of each edge kind (depends, prompt if, default value/condition, range bounds/condition, select, imply, set/set default source/condition/value symbol, if, menu depends/visible if, choice prompt/default/depends, member prompt) is loaded by the real Kconfig(). Where the reference graph has a cycle the loader must raise KconfigError 'Dependency loop' and the items it names must form a cycle of the reference graph; where it has none the tree must load and every observation/output must be computable in every configuration of the value domain without exception.",
     note="Reference dependency graph in mck/checks/c09.py + refsem.dep_graph; member-mentions-sibling-member and defaults/select/imply on choice members excluded (documents silent / not well-formed).",
 )
+CLAIMS["C07"] = dict(
+    category="exploration",
+    technique="bounded exhaustive enumeration of trees x ALL rename files of <=3 lines over an 11-line alphabet x all configurations; the real kconfgen writers are run and every output is parsed back and cross-compared",
+    text="For three trees covering all five types and every presence state (visible, conditionally hidden, promptless, n, empty, choice member, forced by set/select), every ordered sequence of up to 3 distinct lines of the rename alphabet (plain/inverted aliases of one bool, two aliases in both orders, duplicate old name, aliases of int/string/hex with and without `!`, undefined replacement, lowercase old name) and every configuration of the value domain, sdkconfig, header, CMake, JSON (kconfgen writers) and auto.conf are generated, parsed back into typed values and compared option by option and alias by alias (header aliases under C truthiness).",
+    note="Quick tier takes all 1- and 2-line rename files plus all 3-line files over the bool alias lines; thorough all 3-line files.",
+)
